@@ -55,7 +55,8 @@ def _nonlin_solver(fcn, x0, params,
 
     def _ravel_complex(x: torch.Tensor) -> torch.Tensor:
         # represents complex x as a long real vector
-        return torch.cat((x.real, x.imag), dim=0).reshape(-1)
+        # (flattened first: a single unknown may be given as a 0-dimensional tensor)
+        return torch.cat((x.real.reshape(-1), x.imag.reshape(-1)), dim=0)
 
     def _pack_complex(x: torch.Tensor) -> torch.Tensor:
         # pack a long real vector into a complex vector with the shape accepted by fcn
